@@ -238,7 +238,7 @@ class Protocol:
             raise notify_msg
 
         if msg_id not in Message.CODE.MESSAGES:
-            raise Notify(1, 0, 'can not decode update message of type "%d"' % msg_id)
+            raise Notify(1, 3, 'can not decode update message of type "%d"' % msg_id)
 
         if not length:
             return _NOP
